@@ -17,6 +17,12 @@ and the boundary contents of the field (0, 1, sign bit, all ones, ... in both by
 the same for the packet arrays; marker-only / read / write programs under minimumPacketSize and
 packetSize > >= < <= n for several n; plus VERIF_SEED-random programs.
 
+Pair grid (both operands of the statement carry a struct format of their own): the packet variable
+(32 formats) against a second packet variable or a map variable of each of the 32 formats -
+packet = packet, packet = map variable, map variable = packet, packet += map variable,
+packet += packet - with values both formats can hold (boundaries of the narrower one, negative
+values, asymmetric and random ones).  Thorough: all 32 x 32 pairs; quick: a rotating third / ninth.
+
 Where the kernel is usable, every distinct program is also given to the verifier (a rejection is
 recorded in the case: a C05-type fact; the C07 verdict is the machine's fault) and every run on a
 packet of >= 14 bytes is executed by the kernel too; the kernel's final packet / map / return
@@ -50,24 +56,28 @@ def make_class(s):
     from ebpfcat.xdp import XDP, XDPExitCode, PacketVar
     from ebpfcat.arraymap import ArrayMap
     m = ArrayMap()
-    ns = dict(license="GPL", m=m, dst=m.globalVar(s["dfmt"]), src=m.globalVar("q"),
-              marker=m.globalVar("I"))
+    ns = dict(license="GPL", m=m, marker=m.globalVar("I"))
     fmt, op, p, k = s["fmt"], s["op"], s["p"], s["k"]
     if s["acc"] == "var":
         ns["pv"] = PacketVar(p, fmt)
+    # the other operand of the statement: a map variable or a second packet variable, of any format
+    if s["okind"] == "map":
+        ns["oth"] = m.globalVar(s["ofmt"])
+    else:
+        ns["oth"] = PacketVar(s["o"], s["ofmt"])
 
     def access(self, pk):
         if op == "none":
             return
         if s["acc"] == "var":
             if op == "read":
-                self.dst = self.pv
+                self.oth = self.pv
             elif op == "write":
-                self.pv = self.src
+                self.pv = self.oth
             elif op == "const":
                 self.pv = k
             elif op == "iaddv":
-                self.pv += self.src
+                self.pv += self.oth
             elif k >= 0:
                 self.pv += k
             else:
@@ -75,13 +85,13 @@ def make_class(s):
         else:                                   # pB / pH / pI / pQ of the wrapper or the Packet
             arr = getattr(pk, "p" + fmt)
             if op == "read":
-                self.dst = arr[p]
+                self.oth = arr[p]
             elif op == "write":
-                arr[p] = self.src
+                arr[p] = self.oth
             elif op == "const":
                 arr[p] = k
             elif op == "iaddv":
-                arr[p] += self.src
+                arr[p] += self.oth
             elif k >= 0:
                 arr[p] += k
             else:
@@ -111,11 +121,14 @@ def make_class(s):
     return type("P_" + s["guard"], (XDP,), ns)
 
 
-def shape(acc, guard, n, fmt, op, p, k=0, dfmt="q"):
+def shape(acc, guard, n, fmt, op, p, k=0, ofmt="q", okind="map", o=0):
     size = SIZE[fmt[-1]]
+    need = 0 if op == "none" else p + size
+    if okind == "pkt" and op in ("read", "write", "iaddv"):
+        need = max(need, o + SIZE[ofmt[-1]])
     return dict(acc=acc, guard=guard, n=n, abr=2 if guard in ("lt", "le") else 1, fmt=fmt,
-                order=fmt[:-1], letter=fmt[-1], size=size, op=op, p=p, k=k, dfmt=dfmt,
-                need=0 if op == "none" else p + size)
+                order=fmt[:-1], letter=fmt[-1], size=size, op=op, p=p, k=k, ofmt=ofmt, okind=okind, o=o,
+                osz=SIZE[ofmt[-1]], need=need)
 
 
 def offsets(n, size):
@@ -151,11 +164,11 @@ def grid(quick):
     fmts = [o + l for l in LETTERS for o in ORDERS]
     for fi, fmt in enumerate(fmts):
         offs = offsets(N0, SIZE[fmt[-1]])
-        for oi, (op, k, dfmt) in enumerate(ops_for(fmt)):
+        for oi, (op, k, ofmt) in enumerate(ops_for(fmt)):
             for pi, p in enumerate(offs):
                 if quick and (pi + fi + oi) % 3:
                     continue
-                shapes.append(shape("var", "min", N0, fmt, op, p, k, dfmt))
+                shapes.append(shape("var", "min", N0, fmt, op, p, k, ofmt))
     # the packet arrays of the wrapper
     for fi, fmt in enumerate("BHIQ"):
         offs = offsets(N0, SIZE[fmt])
@@ -180,6 +193,30 @@ def grid(quick):
     return shapes
 
 
+NP = 20                    # guard of the pair grid: two 8-byte fields fit without overlapping
+
+
+def pair_grid(quick):
+    """statements whose BOTH operands are variables with a struct format of their own: the packet
+    variable (32 formats) against another packet variable or a map variable (32 formats): copies
+    in both directions and in-place additions.  Thorough: every pair; quick: a rotating third /
+    ninth of the pairs (every format and every (byte order, byte order) combination occurs)."""
+    fmts = [o + l for o in ORDERS for l in LETTERS]
+    kinds = [("write", "pkt", 3, 0), ("write", "map", 9, 1), ("read", "map", 9, 4),
+             ("iaddv", "map", 9, 7), ("iaddv", "pkt", 9, 2)]
+    out = []
+    for op, okind, mod, rem in kinds:
+        for i, f1 in enumerate(fmts):
+            for j, f2 in enumerate(fmts):
+                if quick and (i + 2 * j) % mod != rem % mod:
+                    continue
+                if not quick and op == "iaddv" and okind == "pkt" and (i + 2 * j) % 3:
+                    continue
+                p, o = (1, 12) if (i + j) % 2 == 0 else (12, 3)
+                out.append(shape("var", "min", NP, f1, op, p, 0, f2, okind, o if okind == "pkt" else 0))
+    return out
+
+
 def random_shapes(rng, count):
     out = []
     for _ in range(count):
@@ -189,7 +226,15 @@ def random_shapes(rng, count):
         n = rng.randrange(KMIN, 25)
         have = {"min": n, "gt": n + 1, "ge": n, "lt": n, "le": n + 1}[guard]
         p = rng.randrange(0, have - size + 1)
-        op, k, dfmt = rng.choice(ops_for(fmt))
+        op, k, ofmt = rng.choice(ops_for(fmt))
+        okind, o = "map", 0
+        if op in ("read", "write", "iaddv") and rng.random() < 0.6:
+            ofmt = rng.choice(ORDERS) + rng.choice(LETTERS)           # the other operand has a format too
+            osz = SIZE[ofmt[-1]]
+            if op != "read" and rng.random() < 0.5:
+                free = [x for x in range(0, have - osz + 1) if x + osz <= p or p + size <= x]
+                if free:
+                    okind, o = "pkt", rng.choice(free)
         if op == "const":
             lo, hi = (-(1 << (8 * size - 1)), (1 << (8 * size - 1)) - 1) if fmt[-1].islower() \
                 else (0, (1 << (8 * size)) - 1)
@@ -197,7 +242,7 @@ def random_shapes(rng, count):
         elif op == "iadd":
             k = rng.choice([1, 2, 5, 100, -1, -7, 1000])
         acc = "arr" if fmt in "BHIQ" and rng.random() < 0.5 else "var"
-        out.append(shape(acc, guard, n, fmt, op, p, k, dfmt))
+        out.append(shape(acc, guard, n, fmt, op, p, k, ofmt, okind, o))
     return out
 
 
@@ -215,19 +260,32 @@ def patterns(size, rnd):
     return out
 
 
-def values(fmt, rnd):
-    """in-range values for a write (what struct.pack accepts)"""
-    size = SIZE[fmt[-1]]
-    bits = 8 * size
-    if fmt[-1].islower():
-        lo, hi = -(1 << (bits - 1)), (1 << (bits - 1)) - 1
-        v = [0, 1, -1, lo, hi, -2]
-    else:
-        lo, hi = 0, (1 << bits) - 1
-        v = [0, 1, hi, 1 << (bits - 1), hi - 1]
-    v.append(int.from_bytes(bytes(range(1, size + 1)), "little"))
+def frange(fmt):
+    bits = 8 * SIZE[fmt[-1]]
+    return (-(1 << (bits - 1)), (1 << (bits - 1)) - 1) if fmt[-1].islower() else (0, (1 << bits) - 1)
+
+
+def encode(fmt, v):
+    """the bytes of a variable of this format holding v (input generation; the specification
+    decodes them itself with Bytes!Unpack)"""
+    return list((v % (1 << (8 * SIZE[fmt[-1]]))).to_bytes(SIZE[fmt[-1]],
+                                                          "big" if fmt[0] in ">!" else "little"))
+
+
+def values(fmt, ofmt, rnd):
+    """values both formats can hold (what struct.pack accepts for the destination)"""
+    lo, hi = max(frange(fmt)[0], frange(ofmt)[0]), min(frange(fmt)[1], frange(ofmt)[1])
+    v = [0, 1, hi, lo, hi - 1, int.from_bytes(bytes(range(1, 9)), "little") & (hi >> 1 if lo < 0 else hi)]
+    if lo < 0:
+        v += [-1, -2, lo + 1]
+    elif hi >= 255:
+        v.append((hi >> 1) + 1)                  # the top bit of the narrower format
     v.append(rnd.randrange(lo, hi + 1))
-    return v
+    out = []
+    for x in v:
+        if lo <= x <= hi and x not in out:
+            out.append(x)
+    return out
 
 
 def access_happens(s, length):
@@ -237,38 +295,49 @@ def access_happens(s, length):
     return length > n if s["guard"] in ("min", "gt", "le") else length >= n
 
 
-def runs_for(s, quick, rnd, extra_random=0):
-    """[(packet bytes, src value)] for one program: every length around the guard, and the
-    boundary contents of the field / boundary source values on packets that pass the guard"""
+def runs_for(s, quick, rnd, extra_random=0, few=0, rot=0):
+    """[(packet bytes, initial bytes of the other variable if it is a map variable)] for one
+    program: every length around the guard, and the boundary contents of the field / boundary
+    values of the other variable on packets that pass the guard.  few > 0: only the guard size
+    itself and `few` packets on which the access happens (pair grid)."""
     size, n, p = s["size"], s["n"], s["p"]
     top = n + size + 2
-    if quick:
-        lengths = [0, 13]
-        if s["need"] and s["need"] - 1 < KMIN and s["need"] - 1 not in lengths:
-            lengths.append(s["need"] - 1)       # one byte short of what the access needs
-        lengths += list(range(KMIN, top + 1))
-    else:
-        lengths = list(range(0, top + 1))       # the ones below KMIN run on the machine only
-    pats = patterns(size, rnd)
-    vals = values(s["fmt"], rnd)
     shortest = n + 1 if access_happens(s, n + 1) and not access_happens(s, n) else n
-    want = (6 if quick else len(pats)) if s["op"] in ("read", "iadd", "iaddv") else \
-        (5 if quick else len(vals)) if s["op"] == "write" else 2
-    # boundary contents need a packet on which the access happens: add packets of the shortest
-    # such length until every wanted pattern / value has been used once
-    extra = max(0, want - sum(1 for L in lengths if access_happens(s, L)))
-    lengths += [shortest] * extra + [rnd.randrange(0, top + 1) for _ in range(extra_random)]
+    pats = patterns(size, rnd)
+    uses_other = s["op"] in ("write", "iaddv")
+    vals = values(s["fmt"] if s["op"] == "write" else s["ofmt"], s["ofmt"], rnd) if uses_other else [0]
+    if few:
+        lengths = [n if shortest == n + 1 else n - 1] + [shortest] * few
+    else:
+        if quick:
+            lengths = [0, 13]
+            if s["need"] and s["need"] - 1 < KMIN and s["need"] - 1 not in lengths:
+                lengths.append(s["need"] - 1)   # one byte short of what the access needs
+            lengths += list(range(KMIN, top + 1))
+        else:
+            lengths = list(range(0, top + 1))   # the ones below KMIN run on the machine only
+        want = (6 if quick else len(pats)) if s["op"] in ("read", "iadd", "iaddv") else \
+            (5 if quick else len(vals)) if s["op"] == "write" else 2
+        # boundary contents need a packet on which the access happens: add packets of the shortest
+        # such length until every wanted pattern / value has been used once
+        extra = max(0, want - sum(1 for L in lengths if access_happens(s, L)))
+        lengths += [shortest] * extra + [rnd.randrange(0, top + 1) for _ in range(extra_random)]
     out = []
-    j = 0
+    j = rot
     for L in lengths:
         pkt = [rnd.randrange(256) for _ in range(L)]
-        v = 0
+        obytes = [SENT] * s["osz"] if s["op"] == "read" else encode(s["ofmt"], 0)
         if access_happens(s, L):
             if s["op"] in ("read", "iadd", "iaddv") and L >= p + size:
                 pkt[p:p + size] = pats[j % len(pats)]
-            v = vals[j % len(vals)]
+            if uses_other:
+                obytes = encode(s["ofmt"], vals[(j + j // len(pats)) % len(vals)])
             j += 1
-        out.append((pkt, v))
+        if uses_other and s["okind"] == "pkt":
+            if L >= s["o"] + s["osz"]:
+                pkt[s["o"]:s["o"] + s["osz"]] = obytes
+            obytes = None
+        out.append((pkt, obytes))
     return out
 
 
@@ -284,7 +353,7 @@ def classify(case):
             and case["size"] in (4, 8) and accessed):
         return "atomic-add-on-packet"
     if (case["why"] == ["dest"] and case["op"] == "read" and case["order"] in ("<", ">", "!")
-            and case["letter"] in "hi" and case["field_negative"] and case["size"] < case["dsz"]):
+            and case["letter"] in "hi" and case["field_negative"] and case["size"] < case["osz"] and case["ofmt"] in ("q", "i")):
         return "signed-with-byte-order-read-unsigned"   # F11, first half
     return None
 
@@ -304,14 +373,14 @@ def build_runs(shape_runs, use_kernel):
             refused.append(dict(s, error=f"{type(e).__name__}: {e}"))
             cases.append(dict(programs=[[]], entry=1, maps=[], progs=[], orc=[], pkt=[], arr=[], hash=[],
                               fuel=1, built=False, op=s["op"], fmt=list(s["fmt"]), p=s["p"], k=word(s["k"]),
-                              guard=s["guard"], n=s["n"], abr=s["abr"], need=s["need"], mark=0, dst=0,
-                              dsz=8, src=0, kern=[]))
-            meta.append(dict(s, dsz=8, length=0, field="", src=0, verifier=None, random=is_random, code="",
+                              guard=s["guard"], n=s["n"], abr=s["abr"], need=s["need"], mark=0,
+                              okind=s["okind"], o=s["o"], ofmt=list(s["ofmt"]), kern=[]))
+            meta.append(dict(s, length=0, field="", other="", verifier=None, random=is_random, code="",
                              pkt="", error=refused[-1]["error"]))
             continue
         inst = b.inst
-        off = {k: inst.__dict__[k] for k in ("dst", "src", "marker")}
-        dsz = 8 if s["dfmt"] == "q" else 4
+        mark = inst.__dict__["marker"]
+        o = inst.__dict__["oth"] if s["okind"] == "map" else s["o"]
         vs = b.maps[0]["vs"]
         verifier, pfd = None, None
         if use_kernel:
@@ -323,14 +392,14 @@ def build_runs(shape_runs, use_kernel):
                 verifier = "rejected: " + (lines[-1] if lines else f"errno {e.errno}")
         programs[b.code.hex()] = verifier
         try:
-            for pkt, v in (runs() if callable(runs) else runs):
+            for pkt, obytes in (runs() if callable(runs) else runs):
                 arr0 = bytearray(vs)
-                arr0[off["dst"]:off["dst"] + dsz] = bytes([SENT]) * dsz
-                arr0[off["src"]:off["src"] + 8] = bytes(word(v))
+                if s["okind"] == "map":
+                    arr0[o:o + s["osz"]] = bytes(obytes)
                 c = progs.case(b, pkt=pkt, arr={1: bytes(arr0)}, fuel=400)
                 c.update(op=s["op"], fmt=list(s["fmt"]), p=s["p"], k=word(s["k"]), guard=s["guard"],
-                         n=s["n"], abr=s["abr"], need=s["need"], mark=off["marker"], dst=off["dst"],
-                         dsz=dsz, src=off["src"], kern=[], built=True)
+                         n=s["n"], abr=s["abr"], need=s["need"], mark=mark, okind=s["okind"], o=o,
+                         ofmt=list(s["ofmt"]), kern=[], built=True)
                 if pfd is not None and len(pkt) >= KMIN:
                     inst.m[:] = bytes(arr0)
                     rv, out = kernel.test_run(pfd, bytes(pkt))
@@ -338,7 +407,9 @@ def build_runs(shape_runs, use_kernel):
                     n_kernel_runs += 1
                 cases.append(c)
                 field = pkt[s["p"]:s["p"] + s["size"]] if s["op"] != "none" and len(pkt) >= s["need"] else []
-                meta.append(dict(s, dsz=dsz, length=len(pkt), field=bytes(field).hex(), src=v,
+                other = obytes if obytes is not None else \
+                    pkt[s["o"]:s["o"] + s["osz"]] if len(pkt) >= s["o"] + s["osz"] else []
+                meta.append(dict(s, length=len(pkt), field=bytes(field).hex(), other=bytes(other).hex(),
                                  verifier=verifier, random=is_random, code=b.code.hex(),
                                  pkt=bytes(pkt).hex()))
         finally:
@@ -384,11 +455,11 @@ def judge(ctx, cases, meta):
         took = obs.get("ran") is True
         nontrivial = (took and m["op"] != "none") or (m["op"] == "none" and abs(m["length"] - m["n"]) <= 1) \
             or (not ok)
-        ctx.evaluated((m["acc"], m["guard"], m["n"], m["fmt"], m["op"], m["p"], m["k"], m["dfmt"],
-                       m["length"], m["pkt"], m["src"]), nontrivial=nontrivial)
+        ctx.evaluated((m["acc"], m["guard"], m["n"], m["fmt"], m["op"], m["p"], m["k"], m["ofmt"], m["okind"],
+                       m["o"], m["length"], m["pkt"], m["other"]), nontrivial=nontrivial)
         if i % 997 == 1:
-            ctx.sample({k: m[k] for k in ("acc", "guard", "n", "fmt", "op", "p", "k", "dfmt", "length",
-                                          "verifier")})
+            ctx.sample({k: m[k] for k in ("acc", "guard", "n", "fmt", "op", "p", "k", "ofmt", "okind", "o",
+                                          "length", "verifier")})
         if ok:
             continue
         fault = None
@@ -400,13 +471,16 @@ def judge(ctx, cases, meta):
                     field_negative=obs.get("neg") is True)
         cls = classify(case)
         tally[cls or "UNEXPLAINED"] = tally.get(cls or "UNEXPLAINED", 0) + 1
+        kind = f"{m['op']}/{m['okind']}" if m["op"] in ("read", "write", "iaddv") else m["op"]
+        by_kind = ctx.extra.setdefault("failures_by_statement_kind", {})
+        by_kind[kind] = by_kind.get(kind, 0) + 1
         unexplained += cls is None
         what = (f"the generator raises {m['error']}" if why == ["refused"] else
                 f"faults with {fault} at pc {obs['pc']}" if fault else
                 f"{'/'.join(why)} wrong: {json.dumps(obs)}")
         ctx.case_failed(case, f"{m['acc']} {m['fmt']!r} at {m['p']} {m['op']}"
                               f"{' k=' + str(m['k']) if m['op'] in ('const', 'iadd') else ''}"
-                              f"{' src=' + str(m['src']) if m['op'] in ('write', 'iaddv') else ''} under "
+                              f"{' other=' + m['okind'] + ' ' + repr(m['ofmt']) + ' bytes ' + m['other'] if m['op'] in ('read', 'write', 'iaddv') else ''} under "
                               f"{m['guard']} {m['n']} on a {m['length']}-byte packet "
                               f"(field {m['field']}): {what}"
                               f"{'; verifier ' + m['verifier'] if m['verifier'] else ''}"
@@ -461,8 +535,11 @@ def run(ctx):
     bytes_selftest(ctx)
     rnd = random.Random(0xC07)                     # fixed-seed contents of the gating grid
     shapes = grid(quick)
-    n_grid = len(shapes)
+    pairs = pair_grid(quick)
+    n_grid = len(shapes) + len(pairs)
     plan = [(s, (lambda s=s: runs_for(s, quick, rnd)), False) for s in shapes]
+    plan += [(s, (lambda s=s, i=i: runs_for(s, quick, rnd, few=3 if quick else 5, rot=i)), False)
+             for i, s in enumerate(pairs)]
     plan += [(s, (lambda s=s: runs_for(s, quick, ctx.rng, extra_random=4)), True)
              for s in random_shapes(ctx.rng, 12 if quick else 250)]
     use_kernel = kernel.available()
@@ -477,7 +554,7 @@ def run(ctx):
                 "marker-only programs, the length is within 1 of the guard size, or the run fails")
     rejected = {code: v for code, v in programs.items() if v and v.startswith("rejected")}
     only_verifier = sorted(set(rejected) - faulted_programs)
-    ctx.extra.update(programs=len(programs), grid_shapes=n_grid, generator_refused=len(refused),
+    ctx.extra.update(programs=len(programs), grid_shapes=n_grid, pair_shapes=len(pairs), generator_refused=len(refused),
                      refused_examples=refused[:5], kernel=use_kernel, kernel_runs_cross_checked=n_kernel_runs,
                      verifier_rejected_programs=len(rejected),
                      verifier_rejected_without_machine_fault=len(only_verifier),
@@ -491,13 +568,15 @@ def run(ctx):
                                "cross-check in this run")
     print(f"C07 programs={len(programs)} runs={len(cases)} kernel_runs={n_kernel_runs} "
           f"verifier_rejected={len(rejected)} refused_by_generator={len(refused)} "
-          f"failing_runs={sum(tally.values())} tally={tally} unexplained={unexplained}")
+          f"failing_runs={sum(tally.values())} tally={tally} unexplained={unexplained} "
+          f"by_kind={ctx.extra.get('failures_by_statement_kind', {})}")
 
 
 def replay(ctx, case):
-    """re-run one recorded failing case: same program shape, same packet, same source value"""
+    """re-run one recorded failing case: same program shape, same packet, same other variable"""
     s = shape(case["acc"], case["guard"], case["n"], case["fmt"], case["op"], case["p"], case["k"],
-              case["dfmt"])
-    runs = [(list(bytes.fromhex(case["pkt"])), case["src"])]
+              case["ofmt"], case["okind"], case["o"])
+    runs = [(list(bytes.fromhex(case["pkt"])),
+             list(bytes.fromhex(case["other"])) if case["okind"] == "map" else None)]
     cases, meta, _, refused, _ = build_runs([(s, runs, False)], kernel.available())
     judge(ctx, cases, meta)
